@@ -346,6 +346,31 @@ def o_ecdsa(s, ctx, v, out):
         v.bad('expected=accept|got=reject', 'honest signature rejected')
 
 
+def o_ecss(s, ctx, v, out):
+    if 'ver' not in s.ver:
+        return
+    und = s.undamaged_decode_failed()
+    if und:
+        v.bad('undamaged-decode-failed', 'field %s arrived intact but did not decode' % und)
+        return
+    got = s.ver['ver']
+    if got == 'decode-failed':
+        out.keys.add(('ecss', 'decode-failed', tuple(s.faults())))
+        return
+    cv = ctx['curve']
+    Q = cv.decode_uncompressed(unhex(s.m['pk']['val']))
+    e, ss = sint(s.m['e']['val']), sint(s.m['s']['val'])
+    msg = s.m['msg']['sent']
+    exp = models.ecss_verify(cv, Q, msg, e, ss, ctx['param']['fpbytes'])
+    out.evals += 1
+    out.keys.add(('ecss', tuple(s.faults()), got, exp, min(len(msg), 70)))
+    if exp != (got == '1'):
+        v.bad('expected=%s|got=%s' % ('accept' if exp else 'reject', 'accept' if got == '1' else 'reject'),
+              'the reference EC-Schnorr verification says %s (e=%x s=%x, key %s)' % ('valid' if exp else 'invalid', e, ss, 'identity' if Q is None else 'point'))
+    if not s.faults() and got != '1':
+        v.bad('expected=accept|got=reject', 'honest signature rejected')
+
+
 def o_rsasig(s, ctx, v, out):
     if 'ver' not in s.ver or ctx['rsa'] is None:
         return
@@ -602,8 +627,7 @@ SCHEMES.update({
                   opts=lambda rng: dict(hash=rng.below(2), dup=rng.below(2), cls=1 if rng.chance(0.3) else 0),
                   extra_faults=[('forge', 'v_forgeinf'), ('forge', 'v_forgeord2')]),
     # x-only Schnorr: (e, n - s) under -Q is itself a valid triple
-    'ecss': Spec('C05', 4, dict(pk='ec', e='bn', s='bn', msg='bytes'),
-                 generic_sig_oracle(ok_malleations=(('pk:v_neg', 's:v_negmod'),))),
+    'ecss': Spec('C05', 4, dict(pk='ec', e='bn', s='bn', msg='bytes'), o_ecss, extra_faults=[('forge', 'v_forgeinf')]),
     'rsasig': Spec('C05', 3, dict(sig='bytes', msg='bytes'), o_rsasig, rsa=True, opts=hopts,
                    extra_faults=[('sig', 'v_addmod'), ('sig', 'prefix0'), ('sig', 'v_encflip'), ('sig', 'v_encflip'), ('sig', 'v_encflip')]),
     'bls': Spec('C05', 4, dict(pk='g2', sig='g1', msg='bytes'), o_bls, pc=True),
